@@ -34,6 +34,7 @@ import (
 	"time"
 
 	"github.com/frankkopp/FrankyGo/internal/config"
+	"github.com/frankkopp/FrankyGo/internal/movegen"
 	"github.com/frankkopp/FrankyGo/internal/moveslice"
 	"github.com/frankkopp/FrankyGo/internal/position"
 	"github.com/frankkopp/FrankyGo/internal/search"
@@ -721,6 +722,8 @@ func runGateBehaviour(b *GateBehaviour, watchdog time.Duration, tickMs int, uciF
 	search.VerifTerminalHook = nil
 	config.Settings.Search.TTSize = 8
 	config.Settings.Search.UseBook = false
+	_ = position.NewPosition() // as the protocol loop does before it creates the search (lazily created package loggers)
+	_ = movegen.NewMoveGen()
 	s := search.NewSearch()
 	s.SetUciHandler(&gateCapture{g})
 	res := &GateResult{ID: b.ID, Steps: len(b.Steps), TickMs: tickMs}
